@@ -24,9 +24,18 @@ from the origin, Path2D and PointCloud instances and node metadata; it is read t
 the nodes).  Every kind also goes through a HISTORY of small steps on one object (each call judged
 against the snapshot taken right before it; keys carry step=second|later).
 
-Tolerances: a matrix within 1e-8 of the identity may be skipped (documented shortcut): points are
-then judged with 2e-8 (1 + |p|_1).  Outside that band the product must be right to rounding:
-1e-11 (1 + |p|_1)(1 + |M|_max) - for a scene too (its graph's 1e-5 "repair" of nearly rigid matrices
+Round 4 added: primitives read three ways (tessellation, parameters, the values the API reports:
+volume / area / center_mass / moment_inertia, judged when they were right before the call), a refused
+matrix must leave the primitive as it was, primitives with a centre of mass set by the caller; paths
+with CURVED entities (Arc, closed Arc, Bezier) judged by their curves (image of an own
+parametrisation); a scene of rigidly placed solids whose volume / area / center_mass / moment_inertia
+and triangle soup follow the mesh laws; a uniform scale inside the former 1e-8 band, a similarity
+7e-9 from rigid behind a rotation, rotated stretches along the space diagonal (L.L^T - I constant).
+
+Tolerances: the product must be right to rounding for every matrix, 1e-11 (1 + |p|_1)(1 + |M|_max)
+(the 2e-8 allowance for matrices within 1e-8 of the identity went with the library's own absolute
+identity shortcuts, 7e187dd; it survives only in the inverse / composition laws and in the relative
+slack of values derived from vertices) - for a scene too (its graph's 1e-5 "repair" of nearly rigid matrices
 gets no allowance in the single-call law; a failure that matches it is keyed sym=near_rigid_part_dropped).
 A primitive whose transformed tessellation would have vertices closer than 10 tol.merge is not judged
 (its mesh is re-generated through the merging constructor; documented absolute tolerance).  Primitives may refuse a matrix that is not a similarity
@@ -57,7 +66,10 @@ RULE = (
     "composition on sampled pairs, apply_scale / apply_translation; similarities about a pivot (scale and "
     "translation in one matrix), a uniform scale 1+4e-6, a mirror at 1e-6 on a model of extent 300; per kind a "
     "history of 5 small steps (0.004 / 1e-4 translations, 1e-4 rotation) on one object, scene with nodes 1e3 "
-    "from the origin, a group node, Path2D / PointCloud instances, node metadata.  A case is one (kind, variant, "
+    "from the origin, a group node, Path2D / PointCloud instances, node metadata; round 4: primitives with a "
+    "caller-set centre of mass (one matrix per class), paths with Arc / closed Arc / Bezier entities (2-D, 3-D, "
+    "cached or not), a scene of rigidly placed solids (mass readings, triangle soup), uniform scale 1+5e-10, "
+    "rotation x (1+7e-9), rotated diagonal stretches.  A case is one (kind, variant, "
     "matrix) application; distinct = distinct (kind, variant, matrix bytes, operation, earlier steps); trivial = "
     "identity matrix."
 )
@@ -80,7 +92,10 @@ MIN_EVENTS = {"quick": 1500, "thorough": 10000}
 ASSUMPTIONS = [
     "numpy longdouble products of the snapshot are the truth for M.p",
     "vmon.oracle.massprops (exact rational integrals) is the truth for volume / centre of mass / inertia of a snapshot",
-    "a matrix within 1e-8 (max abs entry) of the identity may legitimately be skipped",
+    "only the exact identity matrix may be skipped (since 7e187dd no kind but the primitives has an absolute shortcut)",
+    "own parametrisation of arcs (circumcircle) and Bezier curves (Bernstein form) is the truth for the points of a curved path; "
+    "a discretisation may deviate by 1 % of the size of an entity",
+    "own formulas for the volume / area / inertia of Box, Cylinder, Sphere, Extrusion from their parameters",
 ]
 EXHAUSTIVE = {"quick": False, "thorough": False}
 
@@ -133,6 +148,8 @@ def class_of_matrix(M):
     det, sim, s, band = props(M)
     if band:
         return "near_identity_inside"
+    if sim == "yes" and 1e-9 <= abs(s - 1) < 1e-6:
+        return "near_unit_similarity"
     if sim == "yes":
         base = ("mirror" if det < 0 else "rigid") if abs(s - 1) < 1e-9 else ("mirror_similarity" if det < 0 else "similarity")
         return base + ("_small" if s < 1e-2 else ("_large" if s > 1e2 else ""))
@@ -173,6 +190,26 @@ def all_matrices(rng, dim):
     M = np.eye(dim + 1)
     M[:dim, :dim] *= 1.0 + 4e-6
     out.append(("near_unit_scale:4e-06", M))
+    # a UNIFORM scale inside the former 1e-8 band (gen.matrix scales one axis only, which no primitive
+    # can hold): a similarity a few parts per billion away from the identity
+    # (5e-10: L.L^T - I = 1e-9, ten times below the documented epsilon of is_rigid, so that a primitive
+    # that keeps it in its matrix is not at the edge of refusing it)
+    M = np.eye(dim + 1)
+    M[:dim, :dim] *= 1.0 + 5e-10
+    out.append(("near_identity:uniscale:5e-10", M))
+    # ... and the same kind of scale behind a rotation: nowhere near the identity matrix, 7e-9 from rigid
+    M = rig[0].copy()
+    M[:dim, :dim] *= 1.0 + 7e-9
+    out.append(("near_unit_similarity:7e-09", M))
+    # stretches along the diagonal of the axes, L.L^T - I = c.ones: every entry of the deviation from
+    # a rotation is the SAME number (gen.matrix has the unrotated one with c = 1.75: `offset_ones`).
+    # Here the square root of I + c.ones (a stretch by sqrt(1 + dim c) along (1,..,1), lengths across
+    # it kept) behind a rotation, expanding and compressing
+    for k, c in enumerate((1.0, -0.25)):
+        w, v = np.linalg.eigh(np.eye(dim) + c * np.ones((dim, dim)))
+        M = np.eye(dim + 1)
+        M[:dim, :dim] = (v * np.sqrt(w)) @ v.T
+        out.append(("offset_ones:rot:%g" % c, M @ rig[(k + 1) % len(rig)]))
     return out
 
 
@@ -235,10 +272,13 @@ def scene_slack(M, expected):
 
 
 def point_tol(M, expected):
-    det, sim, s, band = props(M)
+    """
+    rounding of the product, whatever the matrix.  (Until round 4 a matrix within 1e-8 of the identity
+    was judged with 2e-8 (1 + |p|_1) because every kind documented an absolute 1e-8 identity shortcut;
+    since 7e187dd only the exact identity is a no-op in Trimesh / PointCloud / Path / Scene /
+    transform_points, so the allowance is gone: the quantifier names the matrices on BOTH sides of it.)
+    """
     n1 = 1.0 + np.abs(expected).sum(axis=1)
-    if band:
-        return 2e-8 * n1
     return 1e-11 * n1 * (1.0 + float(np.abs(M).max()))
 
 
@@ -250,6 +290,20 @@ def point_ratio(got, expected, tol):
         return 0.0
     d = np.abs(got - expected).max(axis=1)
     return float((d / tol).max())
+
+
+_EXACT_MEMO = {}
+
+
+def exact_memo(V, F):
+    """exact integrals of arrays seen before (every cell of a kind starts from the same arrays)"""
+    k = (V.shape, F.shape, V.tobytes(), F.tobytes())
+    ex = _EXACT_MEMO.get(k)
+    if ex is None:
+        if len(_EXACT_MEMO) > 64:
+            _EXACT_MEMO.clear()
+        ex = _EXACT_MEMO[k] = exact_mass(V, F)
+    return ex
 
 
 # ------------------------------------------------------------------------------------------
@@ -638,11 +692,217 @@ class PathKind(Kind):
                 run.violation(key("law=polygons_full sym=exception:%s" % type(e).__name__), "polygons_full raised %r" % (e,), case)
 
 
+def arc_samples(P, closed, n):
+    """
+    own parametrisation of the circular arc from P[0] through P[1] to P[2] (2-D or 3-D control points;
+    closed: the full circle): n points, first = P[0], last = P[2] (resp. P[0] again)
+    """
+    P = np.asarray(P, dtype=np.float64)
+    d = P.shape[1]
+    Q = _pad3(P)
+    A, B, C = Q
+    a, b = A - C, B - C
+    axb = np.cross(a, b)
+    nn = float(np.dot(axb, axb))
+    center = C + np.cross(np.dot(a, a) * b - np.dot(b, b) * a, axb) / (2.0 * nn)
+    r = float(np.linalg.norm(A - center))
+    u = (A - center) / r
+    # the sweep from A: through B to C without passing 2 pi
+    w = axb / math.sqrt(nn)
+    v = np.cross(w, u)
+
+    def ang(X):
+        t = math.atan2(float(np.dot(X - center, v)), float(np.dot(X - center, u)))
+        return t % (2 * math.pi)
+
+    tB, tC = ang(B), ang(C)
+    if closed:
+        sweep = 2 * math.pi
+    elif tB < tC:
+        sweep = tC
+    else:  # B comes after C counter-clockwise: the arc runs the other way round
+        sweep = tC - 2 * math.pi
+    t = np.linspace(0.0, sweep, n)
+    out = center + r * (np.cos(t)[:, None] * u + np.sin(t)[:, None] * v)
+    return out[:, :d], r, abs(sweep)
+
+
+def bezier_samples(P, n):
+    """Bernstein form of the Bezier curve with control points P"""
+    P = np.asarray(P, dtype=np.float64)
+    k = len(P) - 1
+    t = np.linspace(0.0, 1.0, n)[:, None]
+    out = np.zeros((n, P.shape[1]))
+    for i in range(k + 1):
+        out += math.comb(k, i) * (t**i) * ((1 - t) ** (k - i)) * P[i]
+    return out
+
+
+def dist_to_polyline(P, L):
+    """distance of every point of P to the open polyline through the rows of L"""
+    A, B = L[:-1], L[1:]
+    AB = B - A
+    den = np.maximum((AB * AB).sum(axis=1), 1e-300)
+    t = np.clip(((P[:, None, :] - A[None]) * AB[None]).sum(axis=2) / den, 0.0, 1.0)
+    X = A[None] + t[:, :, None] * AB[None]
+    return np.sqrt(((P[:, None, :] - X) ** 2).sum(axis=2)).min(axis=1)
+
+
+class CurvedPathKind(PathKind):
+    """
+    a drawing with CURVED entities: a region bounded by a three-point Arc and its chord (Line), a hole
+    that is a closed Arc (full circle), a free cubic Bezier.  Its points are the points of the curves,
+    not only the control vertices: after M every point of the curve before must be at M.p, i.e. the
+    curve after is the image of the curve before (an ellipse arc when M is not a similarity).
+    The curves before are sampled from an own parametrisation, so the law does not depend on what
+    the library had cached.  Judged with the slack of a discretisation (1 % of the size of an entity).
+    """
+
+    allows_resampling = True  # under a non-similarity an arc may be replaced by other entities / more vertices
+
+    def __init__(self, dim, cached):
+        PathKind.__init__(self, dim, cached)
+        self.name = "path%dd:curved" % dim
+
+    def build(self, rng):
+        import trimesh
+        from trimesh.path.entities import Arc, Bezier, Line
+
+        if not hasattr(self, "_v"):
+            c, r = np.array([0.8, -0.4]), 1.5
+            a = np.radians([-70.0, 30.0, 140.0])
+            arc = c + r * np.column_stack([np.cos(a), np.sin(a)])
+            c2, r2 = np.array([1.1, -0.1]), 0.4
+            a2 = np.radians([10.0, 130.0, 250.0])
+            circ = c2 + r2 * np.column_stack([np.cos(a2), np.sin(a2)])
+            bez = np.array([[4.0, 0.0], [4.5, 1.5], [5.5, -0.5], [6.0, 1.0]])
+            V = np.vstack([arc, circ, bez])
+            if self.dim == 3:  # on a tilted plane, so that the arcs are arcs in space
+                V = np.column_stack([V, 0.3 * V[:, 0] - 0.2 * V[:, 1] + 0.75])
+            self._v = V
+            th = math.radians(210.0)
+            self._area0 = 0.5 * r * r * (th - math.sin(th)) - math.pi * r2 * r2  # segment minus hole (2-D)
+        ents = [Arc([0, 1, 2]), Line([2, 0]), Arc([3, 4, 5], closed=True), Bezier([6, 7, 8, 9])]
+        cls = trimesh.path.Path2D if self.dim == 2 else trimesh.path.Path3D
+        return cls(entities=ents, vertices=self._v.copy(), process=False, metadata={"name": "drawing"})
+
+    def _curves0(self):
+        """own samples of the entities before any transform: [(name, closed_loop_member, points)]"""
+        V = self._v
+        return [("Arc", True, arc_samples(V[[0, 1, 2]], False, 121)[0]),
+                ("Line", True, V[[2, 0]]),
+                ("Arc:closed", True, arc_samples(V[[3, 4, 5]], True, 121)[0]),
+                ("Bezier", False, bezier_samples(V[[6, 7, 8, 9]], 61))]
+
+    def extra_laws(self, run, p, s0, s1, M, key, case, loose=False):
+        det, sim, s, band = props(M)
+        if sim != "yes":
+            # which matrix that is not a similarity does not matter to what an entity can hold: one key class
+            import re
+
+            key0 = key
+            key = lambda law: re.sub(r"class=[^ ]+", "class=nonsimilarity", key0(law))  # noqa: E731
+        Mall = [np.asarray(P, dtype=np.float64) for P in getattr(self, "_prefix", ())] + [M]
+        want = []
+        for name, loop, C in self._curves0():
+            for P in Mall:  # earlier steps of a history (each judged when it ran), then this one
+                C = apply_ref(P, C)
+            want.append((name, loop, C, 0.01 * float(np.ptp(C, axis=0).max())))
+        ents = list(p.entities)
+        if len(ents) != len(want):
+            run.violation(key("law=entity_count_kept"), "number of entities changed", dict(case, before=len(want), after=len(ents)))
+            return
+        V1 = np.asarray(p.vertices, dtype=np.float64)
+        if not np.isfinite(V1).all():
+            return
+        # ---- 1. the closed curves as the path hands them out (possibly carried over from before the call)
+        try:
+            disc = [np.asarray(d, dtype=np.float64) for d in p.discrete]
+        except Exception as e:
+            run.violation(key("law=discrete sym=exception:%s" % type(e).__name__), "discrete raised %r" % (e,), case)
+            return
+        loops = [w for w in want if w[1]]
+        if len(disc) != 2:
+            run.violation(key("law=discrete sym=count"), "number of closed curves changed", dict(case, got=len(disc)))
+            return
+        allw = np.vstack([w[2] for w in loops])
+        tolw = np.concatenate([np.full(len(w[2]), w[3]) for w in loops])
+        got = np.vstack(disc)
+        # every vertex handed out lies on an image curve, every sample of an image curve on a curve handed out
+        d_in = np.min([dist_to_polyline(got, w[2]) - w[3] for w in loops], axis=0)
+        d_out = np.min([dist_to_polyline(allw, d) for d in disc], axis=0) - tolw
+        if d_in.max() > 0 or d_out.max() > 0:
+            run.violation(key("law=curve_is_image_of_curve read=discrete"),
+                          "the closed curves after the transform are not the image under M of the curves before",
+                          dict(case, off_by=float(max(d_in.max(), d_out.max())), tolerance=float(tolw.max())))
+            return
+        # ---- 2. every entity, discretised afresh from what the path stores now
+        try:
+            scale = float(p.scale)
+            for e, (name, loop, C, tol) in zip(ents, want):
+                D = np.asarray(e.discrete(V1, scale=scale), dtype=np.float64)
+                off = max(float(dist_to_polyline(D, C).max()), float(dist_to_polyline(C, D).max()))
+                if off > tol:
+                    run.violation(key("law=curve_is_image_of_curve read=entity_discrete"),
+                                  "an entity discretised after the transform is not the image under M of that entity before "
+                                  "(while the curves the path handed out were)", dict(case, entity=name, off_by=off, tolerance=tol))
+                    return
+        except Exception as e:
+            run.violation(key("law=entity_discrete sym=exception:%s" % type(e).__name__), "entity.discrete raised %r" % (e,), case)
+            return
+        # ---- 3. values derived from the curves
+        allc = np.vstack([w[2] for w in want])
+        size = float(np.ptp(allc, axis=0).max())
+
+        def api(name, fn, wantv, tol):
+            try:
+                g = np.asarray(fn(), dtype=np.float64)
+            except Exception as e:
+                run.violation(key("law=%s sym=exception:%s" % (name, type(e).__name__)), "reading %s after the transform raised %r" % (name, e), case)
+                return False
+            if g.shape != np.shape(wantv) or not np.all(np.abs(g - wantv) <= tol):
+                run.violation(key("law=" + name), "%s after the transform is not that of the image curves" % name,
+                              dict(case, got=g, expected=np.asarray(wantv)))
+                return False
+            return True
+
+        # (the library bounds a Bezier by its control polygon: take the same definition, moved through M)
+        ctrl = self._v[[6, 7, 8, 9]]
+        for P in Mall:
+            ctrl = apply_ref(P, ctrl)
+        allb = np.vstack([w[2] for w in want if w[0] != "Bezier"] + [ctrl])
+        if not api("bounds", lambda: p.bounds, np.array([allb.min(axis=0), allb.max(axis=0)]), 0.01 * size):
+            return
+        want_len = sum(float(np.linalg.norm(np.diff(w[2], axis=0), axis=1).sum()) for w in want)
+        if not api("length", lambda: p.length, want_len, 0.005 * want_len):
+            return
+        if self.dim == 2 and well_conditioned(M):
+            detall = float(np.prod([abs(np.linalg.det(linear(P))) for P in Mall]))
+            if not api("area", lambda: p.area, detall * self._area0, 0.005 * detall * self._area0):
+                return
+            try:
+                n_full = len(p.polygons_full)
+                if n_full != 1:
+                    run.violation(key("law=polygons_full_count"), "number of regions changed under an invertible transform", dict(case, got=n_full))
+            except Exception as e:
+                run.violation(key("law=polygons_full sym=exception:%s" % type(e).__name__), "polygons_full raised %r" % (e,), case)
+
+
 class PrimitiveKind(Kind):
+    """
+    a primitive is read three ways: the tessellation it presents (points, exact integrals), its
+    parameters (extents / radius / height / polygon / transform: what a refused call must leave alone)
+    and the values its API reports (volume, area, center_mass, moment_inertia - analytic for some
+    primitives, from the tessellation for others), the latter judged only when the reading BEFORE the
+    call agreed with the oracle (a reading that is wrong before any transform is not this property's).
+    override=True: centre of mass set by the caller (the inherited `center_mass` setter) beforehand.
+    """
+
     may_refuse_nonsimilarity = True
 
-    def __init__(self, which):
+    def __init__(self, which, override=False):
         self.which = which
+        self.override = bool(override)
         self.name = "primitive:" + which
 
     def build(self, rng):
@@ -661,37 +921,174 @@ class PrimitiveKind(Kind):
             T[:3, :3] = R
             T[:3, 3] = [0.7, -1.1, 0.4]
             self._t = T
+            self._com = np.array([0.8, -0.9, 0.25])  # inside every one of the five solids, not their centroid
         T = self._t.copy()
         if self.which == "Box":
-            return P.Box(extents=[1.0, 2.0, 3.0], transform=T)
-        if self.which == "Cylinder":
-            return P.Cylinder(radius=0.6, height=2.0, transform=T, sections=12)
-        if self.which == "Capsule":
-            return P.Capsule(radius=0.5, height=1.5, transform=T, sections=8)
-        if self.which == "Sphere":
-            return P.Sphere(radius=1.25, center=[0.7, -1.1, 0.4], subdivisions=2)
-        from shapely.geometry import Polygon
+            p = P.Box(extents=[1.0, 2.0, 3.0], transform=T)
+        elif self.which == "Cylinder":
+            p = P.Cylinder(radius=0.6, height=2.0, transform=T, sections=12)
+        elif self.which == "Capsule":
+            p = P.Capsule(radius=0.5, height=1.5, transform=T, sections=8)
+        elif self.which == "Sphere":
+            p = P.Sphere(radius=1.25, center=[0.7, -1.1, 0.4], subdivisions=2)
+        else:
+            from shapely.geometry import Polygon
 
-        return P.Extrusion(polygon=Polygon([(0, 0), (2, 0), (2, 1), (1, 1.5), (0, 1)]), height=1.5, transform=T)
+            p = P.Extrusion(polygon=Polygon([(0, 0), (2, 0), (2, 1), (1, 1.5), (0, 1)]), height=1.5, transform=T)
+        if self.override:
+            p.center_mass = self._com.copy()
+        return p
 
     def warm(self, p):
         _ = p.vertices, p.faces, p.volume, p.bounds
 
+    READS = ("volume", "area", "center_mass", "moment_inertia")
+
+    def _params(self, p):
+        pr = p.primitive
+        out = {}
+        for k in ("extents", "radius", "height", "transform"):
+            if hasattr(pr, k):
+                out[k] = np.array(getattr(pr, k), dtype=np.float64)
+        if self.which == "Extrusion":
+            out["polygon"] = np.array(pr.polygon.exterior.coords, dtype=np.float64)
+        return out
+
     def snap(self, p):
         st = (len(p.vertices), len(p.faces))
-        extra = {}
+        extra = {"params": self._params(p), "read": {}}
         if self.which == "Sphere":
-            extra = {"center": np.array(p.primitive.center, dtype=np.float64), "radius": float(p.primitive.radius)}
+            extra.update(center=np.array(p.primitive.center, dtype=np.float64), radius=float(p.primitive.radius))
+        for name in (("center_mass",) if self.override else self.READS):
+            try:
+                extra["read"][name] = np.array(getattr(p, name), dtype=np.float64)
+            except Exception as e:  # reported where the value is judged
+                extra["read"][name] = e
         return Snap(np.array(p.vertices), st, {"metadata": freeze({k: v for k, v in p.metadata.items()})},
                     dict(extra, faces=np.array(p.faces, dtype=np.int64)))
+
+    def refusal_law(self, run, p, s0, key, case):
+        """a matrix the primitive REFUSES (ValueError) must leave it as it was"""
+        P0, P1 = s0.extra["params"], self._params(p)
+        changed = sorted(k for k in P0 if P0[k].shape != P1[k].shape or P0[k].tobytes() != P1[k].tobytes())
+        if changed:
+            run.violation(key("law=refused_matrix_leaves_unchanged sym=parameters_changed"),
+                          "%s refused the matrix (ValueError) but its parameters changed: %s" % (self.name, changed),
+                          dict(case, changed=changed, before={k: P0[k] for k in changed}, after={k: P1[k] for k in changed}))
+            return
+        V1 = np.array(p.vertices)
+        if V1.shape != s0.points.shape or V1.tobytes() != s0.points.tobytes():
+            run.violation(key("law=refused_matrix_leaves_unchanged sym=points_changed"),
+                          "%s refused the matrix (ValueError) but its vertices changed" % self.name, case)
+        run.count("refusals_left_unchanged")
+
+    # ---- what the API should report, from the parameters (own formulas; None: read from the tessellation)
+    def _analytic(self, P, ex):
+        """volume, area, inertia about the centre of mass of the primitive with parameters P (density 1)"""
+        w = self.which
+        if w == "Box":
+            a, b, c = (float(x) for x in P["extents"])
+            return {"volume": a * b * c, "area": 2 * (a * b + b * c + c * a), "inertia": None}
+        if w == "Cylinder":
+            r, h = float(P["radius"]), float(P["height"])
+            m = math.pi * r * r * h
+            Rt = P["transform"][:3, :3]
+            I = np.diag([m * (3 * r * r + h * h) / 12.0] * 2 + [m * r * r / 2.0])
+            return {"volume": m, "area": None, "inertia": Rt @ I @ Rt.T}
+        if w == "Sphere":
+            r = float(P["radius"])
+            m = 4.0 / 3.0 * math.pi * r**3
+            return {"volume": m, "area": 4 * math.pi * r * r, "inertia": 0.4 * m * r * r * np.eye(3)}
+        if w == "Extrusion":
+            xy, h = P["polygon"][:-1], abs(float(P["height"]))
+            x, y = xy[:, 0], xy[:, 1]
+            A = 0.5 * abs(float(np.dot(x, np.roll(y, -1)) - np.dot(y, np.roll(x, -1))))
+            per = float(np.linalg.norm(xy - np.roll(xy, -1, axis=0), axis=1).sum())
+            return {"volume": A * h, "area": h * per + 2 * A, "inertia": None}
+        return {"volume": None, "area": None, "inertia": None}
+
+    def api_laws(self, run, s0, s1, ex0, ex1, M, key, case):
+        det, sim, s, band = props(M)
+        R0, R1 = s0.extra["read"], s1.extra["read"]
+        an = self._analytic(s0.extra["params"], ex0)
+        # an Extrusion can not take a scale into its parameters; one within the documented epsilon of
+        # is_rigid (1e-8 on L.L^T) stays in its matrix: |det| - 1 up to 1.5e-8, ten times that allowed
+        rel = 2e-7 if self.which == "Extrusion" else 1e-9
+
+        def judge(name, law, before, tol_before, want, tol):
+            """the reading before the call must be the oracle's (else: not this property's), then the law"""
+            g0, g1 = R0[name], R1[name]
+            if isinstance(g0, Exception) or np.shape(g0) != np.shape(before) or not np.all(np.abs(g0 - before) <= tol_before):
+                run.count("primitive_read_not_judged_wrong_before:%s.%s" % (self.which, name))
+                return True
+            if isinstance(g1, Exception):
+                run.violation(key("law=%s read=primitive.%s sym=exception:%s" % (law, name, type(g1).__name__)),
+                              "reading %s after the transform raised %r" % (name, g1), case)
+                return False
+            run.count("primitive_reads_judged")
+            if np.shape(g1) != np.shape(want) or not np.all(np.abs(g1 - want) <= tol):
+                run.violation(key("law=%s read=primitive.%s" % (law, name)),
+                              "%s.%s after the transform does not follow the law (it did describe the primitive before)" % (self.name, name),
+                              dict(case, got=g1, expected=np.asarray(want), before=g0))
+                return False
+            return True
+
+        v0 = float(ex0.volume)
+        V0 = an["volume"] if an["volume"] is not None else v0
+        tv0 = (ex0.tol_volume() + rel * ex0.mag_volume) if an["volume"] is None else rel * abs(V0)
+        tv1 = (ex1.tol_volume() + rel * ex1.mag_volume) if an["volume"] is None else rel * abs(det) * abs(V0)
+        judge("volume", "volume_scales_by_|det|", V0, tv0, abs(det) * V0, tv1)
+        if sim == "yes":
+            A0 = an["area"] if an["area"] is not None else ex0.area
+            ta0 = (ex0.tol_area() + rel * 10 * A0) if an["area"] is None else rel * A0
+            judge("area", "area_scales_by_s^2", A0, ta0, s * s * A0, (ex1.tol_area() if an["area"] is None else 0.0) + rel * 10 * s * s * A0)
+        if self.override or not (abs(v0) > 1e-9 and abs(float(ex1.volume)) > 1e-6 * ex1.mag_volume):
+            return
+        c0 = ex0.f(ex0.center_mass())
+        c1 = apply_ref(M, c0[None])[0]
+        tc0 = ex0.tol_center_mass() + 1e-10 * (1 + np.abs(c0).sum())
+        tc1 = ex1.tol_center_mass() + 1e-10 * (1 + np.abs(c1).sum())
+        if not judge("center_mass", "center_mass_maps_through_M", c0, tc0, c1, tc1):
+            return
+        if sim == "yes":
+            R = linear(M) / s
+            if an["inertia"] is None:
+                I0 = ex0.f(ex0.inertia_com())
+                want = (s**5) * (R @ I0 @ R.T)
+                ti0 = ex0.tol_inertia(c0, tc0) + rel * 100 * float(np.abs(I0).max()) + rel * ex0.mag_second.max()
+                ti1 = ex1.tol_inertia(c1, tc1) + rel * 100 * float(np.abs(want).max()) + rel * ex1.mag_second.max()
+            else:
+                I0 = an["inertia"]
+                want = (s**5) * (R @ I0 @ R.T)
+                ti0, ti1 = rel * float(np.abs(I0).max()), rel * float(np.abs(want).max())
+            judge("moment_inertia", "inertia_s^5_R_I_R^T", I0, ti0, want, ti1)
+
+    def override_law(self, run, s0, s1, M, key, case):
+        # the centre of mass the caller set is attached data that is a POINT: it moves through M
+        com0 = s0.extra["com_override"]
+        cov = apply_ref(M, com0[None])[0]
+        got, was = s1.extra["read"]["center_mass"], s0.extra["read"]["center_mass"]
+        tolc = 1e-11 * (1.0 + float(np.abs(M).max())) * (1.0 + float(np.abs(cov).sum()))
+        if isinstance(got, Exception) or np.shape(got) != (3,) or np.abs(got - cov).max() > tolc:
+            moved = isinstance(got, Exception) or isinstance(was, Exception) or np.shape(got) != np.shape(was) or np.abs(got - was).max() > 0
+            if moved:
+                run.violation(key("law=center_mass_override_moved kind_variant=com_override"), "an overridden centre of mass is not at M.c after the transform",
+                              dict(case, got=repr(got), expected=cov))
+            else:  # left where it was, whatever the matrix: one key per primitive
+                ka = make_key(self.name + ":com_override", "any", None)
+                run.violation(ka("law=center_mass_override_moved sym=not_moved"),
+                              "an overridden centre of mass stays where it was while the primitive moves",
+                              dict(case, got=got, expected=cov))
 
     def extra_laws(self, run, p, s0, s1, M, key, case, loose=False):
         det, sim, s, band = props(M)
         V1, F1 = s1.points, s1.extra["faces"]
         if not np.isfinite(V1).all() or len(V1) == 0:
             return
+        if self.override:
+            return self.override_law(run, s0, s1, M, key, case)  # everything else: the twin without an override
         # valid solid stays valid: the mesh it presents encloses |det| * the volume, positively
-        ex0 = exact_mass(s0.points, s0.extra["faces"])
+        ex0 = exact_memo(s0.points, s0.extra["faces"])
         ex1 = exact_mass(V1, F1)
         v0, v1 = float(ex0.volume), float(ex1.volume)
         want = abs(det) * v0
@@ -701,6 +1098,7 @@ class PrimitiveKind(Kind):
             run.violation(key("law=mesh_volume_scales_by_|det| sym=%s" % sym),
                           "the triangles a primitive presents after the transform do not enclose |det M| x the volume (inside-out when negative)",
                           dict(case, got=v1, expected=want))
+            return  # the values the API reports would only restate this
         try:
             if not bool(p.is_volume):
                 run.violation(key("law=is_volume_kept"), "primitive is no longer a valid volume", case)
@@ -711,12 +1109,17 @@ class PrimitiveKind(Kind):
             tolp = point_tol(M, c1[None])[0]
             if np.abs(s1.extra["center"] - c1).max() > tolp:
                 run.violation(key("law=sphere_center_maps_through_M"), "Sphere centre is not M.centre", dict(case, got=s1.extra["center"], expected=c1))
+                return
             r1 = s * s0.extra["radius"]
-            if abs(s1.extra["radius"] - r1) > (2e-8 if band else 1e-11) * (1 + r1):
+            # (a sphere has one radius: the law is the statement's only for similarities)
+            if sim == "yes" and abs(s1.extra["radius"] - r1) > 1e-11 * (1 + r1):
                 run.violation(key("law=sphere_radius_scales_by_s"), "Sphere radius is not s x radius", dict(case, got=s1.extra["radius"], expected=r1))
+                return
             d = np.linalg.norm(V1 - c1, axis=1)
             if np.abs(d - r1).max() > (1e-7 if band else 1e-9) * (1 + r1 + np.abs(c1).sum()):
                 run.violation(key("law=sphere_vertices_on_sphere"), "Sphere vertices do not lie on the transformed sphere", case)
+                return
+        self.api_laws(run, s0, s1, ex0, ex1, M, key, case)
 
 
 def _pad3(P):
@@ -901,6 +1304,166 @@ class SceneKind(Kind):
             run.violation(key("law=bounds sym=exception:%s" % type(e).__name__), "Scene.bounds raised %r" % (e,), case)
 
 
+def coarse_class(M):
+    """class of a matrix for values DERIVED from placed instances: only scale and orientation matter"""
+    det, sim, s, band = props(M)
+    if sim != "yes":
+        return "nonsimilarity_det%s" % ("+" if det > 0 else "-")
+    if abs(s - 1.0) < 1e-12:
+        return "rigid" if det > 0 else "mirror"
+    return "scaled" if det > 0 else "scaled_mirror"
+
+
+class SolidSceneKind(SceneKind):
+    """
+    a scene of SOLIDS only, every instance placed rigidly (nested a0 -> b0, the box instanced a second
+    time turned, the tetrahedron a second time): what the scene reports about its mass - volume, area,
+    center_mass, moment_inertia - and its triangle soup (`triangles`, `triangles_node`) are right before
+    the call (checked against the exact integrals of the explicitly placed instances; a reading that is
+    wrong beforehand is not judged: not this property's) and must follow the laws of the statement
+    afterwards: |det| V, s^2 A, M.c, s^5 R I R^T, soup corners at M.p and wound so that every
+    instance still encloses its volume positively.
+    """
+
+    variant = "solids"
+    READS = ("volume", "area", "center_mass", "moment_inertia", "triangles", "triangles_node")
+
+    def build(self, rng):
+        import trimesh
+
+        if not hasattr(self, "_parts"):
+            rng = self.local_rng()
+            self._parts = [_mesh_source(rng, 0), _mesh_source(rng, 4)]
+            T1 = np.eye(4)
+            T1[:3, 3] = [2.0, 0.0, -1.0]
+            c, s_ = math.cos(0.4), math.sin(0.4)
+            T2 = np.array([[c, -s_, 0, 0.5], [s_, c, 0, 1.0], [0, 0, 1, 2.0], [0, 0, 0, 1.0]])
+            c, s_ = math.cos(0.9), math.sin(0.9)
+            T3 = np.array([[c, 0, s_, -4.0], [0, 1, 0, -1.0], [-s_, 0, c, 3.0], [0, 0, 0, 1.0]])
+            T4 = np.eye(4)
+            T4[:3, 3] = [0.5, 6.0, -2.0]
+            self._T = [T1, T2, T3, T4]
+        T = [t.copy() for t in self._T]
+        sc = trimesh.Scene()
+        base = sc.graph.base_frame
+        a = trimesh.Trimesh(self._parts[0][0].copy(), self._parts[0][1].copy(), process=False)
+        b = trimesh.Trimesh(self._parts[1][0].copy(), self._parts[1][1].copy(), process=False)
+        sc.add_geometry(a, node_name="a0", geom_name="A", transform=T[0], metadata={"tag": "a0"})
+        sc.add_geometry(b, node_name="b0", geom_name="B", transform=T[1], parent_node_name="a0")
+        sc.graph.update(frame_to="a1", frame_from=base, matrix=T[2], geometry="A")
+        sc.graph.update(frame_to="b1", frame_from=base, matrix=T[3], geometry="B")
+        sc.metadata["name"] = "solids"
+        return sc
+
+    def snap(self, sc):
+        sn = SceneKind.snap(self, sc)
+        read = {}
+        for name in self.READS:
+            try:
+                v = getattr(sc, name)
+                read[name] = np.array(v, dtype=np.float64) if name != "triangles_node" else [str(x) for x in v]
+            except Exception as e:
+                read[name] = e
+        sn.extra["read"] = read
+        sn.extra["faces"] = {n: np.array(sc.geometry[sc.graph[n][1]].faces, dtype=np.int64) for n in sn.extra["names"]}
+        return sn
+
+    @staticmethod
+    def _union(names, placed, faces, mats):
+        """one (V, F) of all instances; an instance placed with a mirroring matrix is the solid re-wound"""
+        Vs, Fs, off = [], [], 0
+        for n in names:
+            F = faces[n] if np.linalg.det(mats[n][:3, :3]) > 0 else faces[n][:, ::-1]
+            Vs.append(placed[n])
+            Fs.append(F + off)
+            off += len(placed[n])
+        return np.vstack(Vs), np.vstack(Fs)
+
+    def extra_laws(self, run, sc, s0, s1, M, key, case, loose=False):
+        SceneKind.extra_laws(self, run, sc, s0, s1, M, key, case, loose)
+        import re
+
+        det, sim, s, band = props(M)
+        cc = coarse_class(M)
+        key0 = key
+        key = lambda law: re.sub(r"class=[^ ]+", "class=" + cc, key0(law))  # noqa: E731
+        names, rows = s0.extra["names"], s0.extra["rows"]
+        before = {n: s0.points[rows[i]:rows[i + 1]] for i, n in enumerate(names)}
+        after = {n: apply_ref(M, before[n]) for n in names}  # where the instances have to be
+        mats0 = s0.extra["node_T"]
+        mats1 = {n: M @ mats0[n] for n in names}  # only the sign of the determinant is used
+        V0, F0 = self._union(names, before, s0.extra["faces"], mats0)
+        V1, F1 = self._union(names, after, s0.extra["faces"], mats1)
+        ex0, ex1 = exact_memo(V0, F0), exact_mass(V1, F1)
+        R0, R1 = s0.extra["read"], s1.extra["read"]
+        rel = 1e-9
+
+        def judge(name, law, before_v, tol_before, want, tol):
+            g0, g1 = R0[name], R1[name]
+            if isinstance(g0, Exception) or np.shape(g0) != np.shape(before_v) or not np.all(np.abs(g0 - before_v) <= tol_before):
+                run.count("scene_read_not_judged_wrong_before:%s" % name)
+                return True
+            if isinstance(g1, Exception):
+                run.violation(key("law=%s read=scene.%s sym=exception:%s" % (law, name, type(g1).__name__)),
+                              "reading Scene.%s after the transform raised %r" % (name, g1), case)
+                return False
+            run.count("scene_reads_judged")
+            if np.shape(g1) != np.shape(want) or not np.all(np.abs(g1 - want) <= tol):
+                run.violation(key("law=%s read=scene.%s" % (law, name)),
+                              "Scene.%s after the transform does not follow the law (it was right before the call)" % name,
+                              dict(case, got=g1, expected=np.asarray(want), before=g0))
+                return False
+            return True
+
+        v0, v1 = float(ex0.volume), float(ex1.volume)
+        judge("volume", "volume_scales_by_|det|", v0, ex0.tol_volume() + rel * ex0.mag_volume, v1, ex1.tol_volume() + rel * ex1.mag_volume)
+        if sim == "yes":
+            judge("area", "area_scales_by_s^2", ex0.area, ex0.tol_area() + rel * 10 * ex0.area, ex1.area, ex1.tol_area() + rel * 10 * ex1.area)
+        c0, c1 = ex0.f(ex0.center_mass()), ex1.f(ex1.center_mass())
+        tc0 = ex0.tol_center_mass() + 1e-10 * (1 + np.abs(c0).sum())
+        tc1 = ex1.tol_center_mass() + 1e-10 * (1 + np.abs(c1).sum())
+        if judge("center_mass", "center_mass_maps_through_M", c0, tc0, c1, tc1) and sim == "yes":
+            I0, I1 = ex0.f(ex0.inertia_com()), ex1.f(ex1.inertia_com())
+            ti0 = ex0.tol_inertia(c0, tc0) + rel * 100 * float(np.abs(I0).max()) + rel * ex0.mag_second.max()
+            ti1 = ex1.tol_inertia(c1, tc1) + rel * 100 * float(np.abs(I1).max()) + rel * ex1.mag_second.max()
+            judge("moment_inertia", "inertia_s^5_R_I_R^T", I0, ti0, I1, ti1)
+        # ---- the triangle soup, instance by instance
+        t0, t1, n0, n1 = R0["triangles"], R1["triangles"], R0["triangles_node"], R1["triangles_node"]
+        if any(isinstance(x, Exception) for x in (t0, n0)):
+            run.count("scene_read_not_judged_wrong_before:triangles")
+            return
+        if isinstance(t1, Exception) or isinstance(n1, Exception):
+            run.violation(key("law=soup read=scene.triangles sym=exception"), "Scene.triangles raised after the transform: %r" % (t1,), case)
+            return
+        if t1.shape != t0.shape or list(n1) != list(n0):
+            run.violation(key("law=soup_kept read=scene.triangles sym=shape_or_nodes"), "the triangle soup changed size / node assignment", case)
+            return
+        n0 = np.array(n0)
+        for n in names:
+            sel = n0 == n
+            vol_inst = float(exact_mass(*self._union([n], before, s0.extra["faces"], mats0)).volume)
+            b0 = float(exact_mass(t0[sel].reshape(-1, 3), np.arange(3 * sel.sum()).reshape(-1, 3)).volume)
+            if abs(b0 - vol_inst) > 1e-9 * (1 + abs(vol_inst)):
+                run.count("scene_read_not_judged_wrong_before:triangles")
+                continue
+            want = apply_ref(M, t0[sel].reshape(-1, 3)).reshape(-1, 3, 3)
+            got = t1[sel]
+            tol = point_tol(M, want.reshape(-1, 3)).reshape(-1, 3)
+            d = np.abs(got[:, :, None, :] - want[:, None, :, :]).max(axis=3)  # corner of got x corner of want
+            if (d.min(axis=1) > tol).any():
+                run.violation(key("law=soup_p->M.p read=scene.triangles"), "corners of Scene.triangles are not at M.p of the corners before", dict(case, node=n))
+                return
+            a1 = float(exact_mass(got.reshape(-1, 3), np.arange(3 * sel.sum()).reshape(-1, 3)).volume)
+            wv = abs(det) * vol_inst
+            if abs(a1 - wv) > 1e-9 * (1 + wv) * (1 + float(np.abs(got).max()) ** 3):
+                sym = "inside_out" if abs(a1 + wv) <= 1e-9 * (1 + wv) * (1 + float(np.abs(got).max()) ** 3) else "wrong_value"
+                run.violation(key("law=soup_encloses_|det|_V read=scene.triangles sym=%s" % sym),
+                              "the triangles Scene.triangles hands out for an instance do not enclose |det M| x its volume positively "
+                              "(not re-wound when M mirrors)", dict(case, node=n, got=a1, expected=wv))
+                return
+        run.count("scene_soups_judged")
+
+
 class VoxelKind(Kind):
     name = "voxel"
 
@@ -987,7 +1550,9 @@ def check_cell(run, kind, tag, M, rng, table, op="apply_transform", op_arg=None,
     grp = group(tag, M) if op == "apply_transform" else tag
     cached = getattr(kind, "cached", None)
     step = "" if not prefix else " step=%s" % ("second" if len(prefix) == 1 else "later")
-    key = make_key(kind.name + (":com_override" if getattr(kind, "override", False) else ""), grp, cached, step)
+    # which entry of the matrix is off by less than 1e-8 does not matter to a shortcut: one key class
+    kgrp = "near_identity_inside" if (grp.startswith("near_identity_") and grp.endswith("_inside")) else grp
+    key = make_key(kind.name + (":com_override" if (getattr(kind, "override", False) and isinstance(kind, MeshKind)) else ""), kgrp, cached, step)
     variant = getattr(kind, "variant", getattr(kind, "source", ""))
     case = {"kind": kind.name, "variant": variant, "source": getattr(kind, "source", None), "cached": cached,
             "override": getattr(kind, "override", False), "class": tag, "matrix": M.tolist(), "op": op,
@@ -1013,7 +1578,7 @@ def check_cell(run, kind, tag, M, rng, table, op="apply_transform", op_arg=None,
             run.state("regime_skipped", (kind.name, grp))
             return None
     if isinstance(kind, MeshKind):
-        s0.extra["ex"] = exact_mass(s0.points, s0.structure)
+        s0.extra["ex"] = exact_memo(s0.points, s0.structure)
         try:
             s0.extra["is_volume"] = bool(obj.is_volume) if kind.cached else None
         except Exception:
@@ -1021,11 +1586,11 @@ def check_cell(run, kind, tag, M, rng, table, op="apply_transform", op_arg=None,
         if s0.extra["is_volume"] is None and not kind.cached:
             # evaluate on a separate copy so the object under test stays "fresh"
             s0.extra["is_volume"] = bool(kind.build(rng).is_volume)
-        if kind.override:
-            com = np.array(kind._com, dtype=np.float64)
-            for P in prefix:  # own bookkeeping of where the override has been moved to
-                com = apply_ref(np.asarray(P, dtype=np.float64), com[None])[0]
-            s0.extra["com_override"] = com
+    if getattr(kind, "override", False):
+        com = np.array(kind._com, dtype=np.float64)
+        for P in prefix:  # own bookkeeping of where the override has been moved to
+            com = apply_ref(np.asarray(P, dtype=np.float64), com[None])[0]
+        s0.extra["com_override"] = com
     kind._prefix = [np.asarray(P, dtype=np.float64) for P in prefix]
     try:
         do_apply(obj, op, M if op == "apply_transform" else op_arg)
@@ -1033,10 +1598,15 @@ def check_cell(run, kind, tag, M, rng, table, op="apply_transform", op_arg=None,
         if kind.may_refuse_nonsimilarity and sim != "yes":
             run.count("refusals_accepted:%s" % kind.name)
             run.state("refusal", (kind.name, grp))
+            # ... but a refused call must not have changed the object (which matrix was refused does
+            # not matter: one key class)
+            kind.refusal_law(run, obj, s0, make_key(kind.name, "nonsimilarity", cached, step), dict(case, exception=repr(e)))
             return None
         if kind.may_refuse_nonsimilarity:
             # the refusal does not depend on the size of the scale: one key per matrix class
-            g0 = "similarity" if grp == "near_unit_scale" else grp.replace("_small", "").replace("_large", "")
+            g0 = grp.replace("_small", "").replace("_large", "")
+            if grp == "near_unit_scale" or (grp == "near_unit_similarity" and kind.which == "Extrusion"):
+                g0 = "similarity"  # an Extrusion refuses every scale: the listed key
             k0 = make_key(kind.name, g0, cached)
             run.violation(k0("law=refused_similarity"), "primitive refused a similarity transform: %s" % e, dict(case, exception=repr(e)))
             return None
@@ -1048,6 +1618,14 @@ def check_cell(run, kind, tag, M, rng, table, op="apply_transform", op_arg=None,
     if kind.may_refuse_nonsimilarity:
         run.state("accepted", (kind.name, grp))
     s1 = kind.snap(obj)
+    if getattr(kind, "allows_resampling", False) and sim != "yes" and (s1.points.shape != s0.points.shape or s1.structure != s0.structure):
+        # curved entities that can not hold the image of a curve were replaced: judged by the curves only
+        run.count("curved_path_re-represented_under_nonsimilarity")
+        if s0.attached != s1.attached:
+            diff = sorted(k for k in s0.attached if s0.attached[k] != s1.attached.get(k))
+            run.violation(make_key(kind.name, "any", cached)("law=attached_data_kept what=%s" % "+".join(diff)), "attached data changed by the transform: %s" % diff, case)
+        kind.extra_laws(run, obj, s0, s1, M, key, case)
+        return obj
     # ---- points
     want = apply_ref(M, s0.points)
     if isinstance(kind, PrimitiveKind) and kind.which == "Sphere":
@@ -1077,7 +1655,7 @@ def check_cell(run, kind, tag, M, rng, table, op="apply_transform", op_arg=None,
     if not attached_ok:
         diff = sorted(k for k in s0.attached if s0.attached[k] != s1.attached.get(k))
         # what is attached does not depend on the matrix: one key per kind of data, not per matrix class
-        ka = make_key(kind.name + (":com_override" if getattr(kind, "override", False) else ""), "any", cached)
+        ka = make_key(kind.name + (":com_override" if (getattr(kind, "override", False) and isinstance(kind, MeshKind)) else ""), "any", cached)
         run.violation(ka("law=attached_data_kept what=%s" % "+".join(diff)), "attached data changed by the transform: %s" % diff, case)
     kind.extra_laws(run, obj, s0, s1, M, key, case)
     # ---- inverse restores
@@ -1123,7 +1701,7 @@ def check_compose(run, kind, tagA, A, tagB, B, rng):
     # coarse, structural class of the pair: determinant signs and whether a factor sits at the identity shortcut
     pair = "compose_det%s%s%s" % ("+" if props(A)[0] > 0 else "-", "+" if props(B)[0] > 0 else "-",
                                   "_near_identity" if ("near_identity" in gA or "near_identity" in gB) else "")
-    key = make_key(kind.name + (":com_override" if getattr(kind, "override", False) else ""), pair, cached)
+    key = make_key(kind.name + (":com_override" if (getattr(kind, "override", False) and isinstance(kind, MeshKind)) else ""), pair, cached)
     case = {"kind": kind.name, "variant": getattr(kind, "variant", None), "source": getattr(kind, "source", None),
             "cached": cached, "A": A.tolist(), "B": B.tolist(), "classA": tagA, "classB": tagB, "op": "compose", "dim": kind.dim, "salt": int(kind.salt)}
     run.case("compose:%s" % kind.name, kind.name, getattr(kind, "variant", None), cached, A, B)
@@ -1147,7 +1725,10 @@ def check_compose(run, kind, tagA, A, tagB, B, rng):
                 run.count("refusals_accepted:%s" % kind.name)
                 return
             # same mechanism key as a single application of that matrix class
-            k1 = make_key(kind.name, class_of_matrix(Ms).replace("_small", "").replace("_large", ""), cached)
+            g1 = class_of_matrix(Ms).replace("_small", "").replace("_large", "")
+            if g1 == "near_unit_similarity" and kind.which == "Extrusion":
+                g1 = "similarity"
+            k1 = make_key(kind.name, g1, cached)
             run.violation(k1("law=refused_similarity"), "primitive refused a similarity transform: %s" % e,
                           dict(case, exception=repr(e), step=step))
             return
@@ -1215,10 +1796,20 @@ def _kinds_list(quick):
     for d in (2, 3):
         for cached in (True, False):
             ks.append(PathKind(d, cached))
-    for w in ("Box", "Cylinder", "Capsule", "Sphere", "Extrusion"):
+    for d in (2, 3):
+        for cached in (True, False):
+            ks.append(CurvedPathKind(d, cached))
+    for w in ("Box", "Cylinder", "Sphere", "Extrusion"):
         ks.append(PrimitiveKind(w))
+    for w in ("Box", "Cylinder", "Sphere", "Extrusion"):
+        ks.append(PrimitiveKind(w, override=True))
     ks.append(SceneKind())
+    ks.append(SolidSceneKind())
     ks.append(VoxelKind())
+    # last: by far the most expensive cells (a tessellation of 3840 faces, exact integrals) - if the
+    # budget is cut by load it is cut here, after every anchor has been entered
+    ks.append(PrimitiveKind("Capsule"))
+    ks.append(PrimitiveKind("Capsule", override=True))
     return ks
 
 
@@ -1235,10 +1826,18 @@ def workload(run):
         rounds += 1
         # ---- every kind x every matrix
         for kind in kinds:
+            seen = set()
             for tag, M in mats[kind.dim]:
                 idx += 1
                 if not run.mine(idx):
                     continue
+                if isinstance(kind, PrimitiveKind) and kind.override:
+                    # what happens to the override does not depend on the entries: one matrix per class
+                    # (the twin without an override goes through all of them)
+                    b = tag.split(":")[0]
+                    if b in ("identity", "near_identity") or b in seen:
+                        continue
+                    seen.add(b)
                 check_cell(run, kind, tag, M, rng, table)
             if run.out_of_time(0.6):
                 break
@@ -1270,6 +1869,8 @@ def workload(run):
                     continue
                 if kind.may_refuse_nonsimilarity and not (props(A)[1] == props(B)[1] == "yes"):
                     continue
+                if getattr(kind, "allows_resampling", False) and not (props(A)[1] == props(B)[1] == "yes"):
+                    continue  # judged by the single call (curves); vertex-wise comparison of two routes would restate it
                 dd = kind.dim
                 acc = abs(np.linalg.det(np.dot(B, A)[:dd, :dd])) ** (1.0 / dd)
                 if not (1e-4 <= acc <= 1e4):
@@ -1328,11 +1929,11 @@ def replay(run, case):
     elif k == "pointcloud":
         kind = CloudKind()
     elif k.startswith("path"):
-        kind = PathKind(int(k[4]), bool(case.get("cached")))
+        kind = (CurvedPathKind if k.endswith(":curved") else PathKind)(int(k[4]), bool(case.get("cached")))
     elif k.startswith("primitive:"):
-        kind = PrimitiveKind(k.split(":")[1])
+        kind = PrimitiveKind(k.split(":")[1], bool(case.get("override")))
     elif k == "scene":
-        kind = SceneKind()
+        kind = SolidSceneKind() if case.get("variant") == "solids" else SceneKind()
     else:
         kind = VoxelKind()
     kind.salt = int(case.get("salt", 0))
